@@ -54,6 +54,7 @@ type Config struct {
 	CardAccessExtra []reflds.SecInfo // additional entries in CardAccess only
 	OmitFromChip []int               // data groups listed in SOD but not stored on the chip
 	DIR         bool
+	CAMClone    bool // PACE-CAM: the chip computes the chip-authentication data with a key other than the one certified in CardSecurity
 }
 
 type Perso struct {
@@ -252,6 +253,9 @@ func Build(cfg Config) *Perso {
 		set, _ := reflds.EncSecInfos(cardSecInfos)
 		cs, _ := is.IssueCardSecurity(set)
 		p.CardSecurity = cs
+	}
+	if cfg.CAMClone && chip.PACE != nil && chip.PACE.CAMKey != nil {
+		chip.PACE.CAMKey = refpki.DeriveECKey(chip.PACE.CAMKey.Curve, "cam-clone")
 	}
 	// ---- load the chip
 	omit := map[int]bool{}
